@@ -4,6 +4,7 @@ package main
 // Trace monitor over directory-tree snapshots before/after WriteSpec/RemoveSpec.
 
 import (
+	"bytes"
 	"crypto/sha256"
 	"fmt"
 	"io/fs"
@@ -78,6 +79,7 @@ func checkC16(c *Ctx) {
 	c.Floor("id_with_extension", 8)
 	c.Floor("name_with_extension_in_other_case", 5)
 	c.Floor("last_dir_missing", 8)
+	c.Floor("caches_reconfigured_before_the_write", 20)
 	c.Floor("names_of_236_to_255_bytes", 8)
 	c.Floor("last_dir_also_listed_earlier", 8)
 	c.Floor("auto_mode_last_dir_missing", 5)
@@ -222,9 +224,25 @@ func c16Case(cs *Case, auto bool) {
 			c.Count("auto_mode_last_dir_missing", 1)
 		}
 	}
+	// what a cache of its own writes for this Spec under this name, elsewhere: the
+	// reference for the content of the file
+	refDir := filepath.Join(root, "ref-writer")
+	var refBytes []byte
+	if rc, _ := cdi.NewCache(cdi.WithSpecDirs(refDir), cdi.WithAutoRefresh(false)); rc != nil && rc.WriteSpec(cloneSpec(spec), wname) == nil {
+		refBytes, _ = os.ReadFile(filepath.Join(refDir, filepath.Base(expected)))
+	}
+	os.RemoveAll(refDir)
 	// sometimes the target exists already (replace)
-	if chance(r, 25) && !strings.HasPrefix(lastShape, "missing") {
-		must(os.WriteFile(expected, []byte("old content"), 0o644))
+	if chance(r, 30) && !strings.HasPrefix(lastShape, "missing") {
+		switch r.Intn(3) {
+		case 0:
+			must(os.WriteFile(expected, []byte("old content"), 0o644))
+		case 1: // the new content already, followed by leftovers of a longer, older version
+			must(os.WriteFile(expected, append(append([]byte{}, refBytes...), []byte("\n  - name: ghost\n    containerEdits:\n      env:\n        - GHOST=1\n")...), 0o644))
+			c.Count("replaces_a_longer_file_that_begins_with_the_new_content", 1)
+		default: // a shorter prefix of the new content
+			must(os.WriteFile(expected, refBytes[:len(refBytes)/2], 0o644))
+		}
 		c.Count("replaces_existing_file", 1)
 	}
 	var cache *cdi.Cache
@@ -235,15 +253,38 @@ func c16Case(cs *Case, auto bool) {
 		must(os.MkdirAll(anchor, 0o755))
 		dirs = append([]string{anchor}, dirs...)
 		wit["dirs"] = dirs
-		a, err := newAutoCache(sandbox, anchor, dirs)
+		first := dirs
+		reconfigured := chance(r, 25)
+		if reconfigured {
+			// the cache starts out on other directories: what counts is the last
+			// directory of the configuration in force
+			elsewhere := filepath.Join(sandbox, "configured-first")
+			must(os.MkdirAll(elsewhere, 0o755))
+			first = []string{anchor, elsewhere}
+		}
+		a, err := newAutoCache(sandbox, anchor, first)
 		if err != nil {
 			c.Inconclusive("no-inotify")
 			return
 		}
 		defer a.Close()
 		cache, ac = a.C, a
+		if reconfigured {
+			o, reuse := withDirs(dirs)
+			cache.Configure(o)
+			reuse()
+			c.Count("caches_reconfigured_before_the_write", 1)
+		}
 		// let the watcher register what it can, then query once (as a user would)
 		cache.ListDevices()
+	} else if chance(r, 25) {
+		elsewhere := filepath.Join(sandbox, "configured-first")
+		must(os.MkdirAll(elsewhere, 0o755))
+		cache, _ = cdi.NewCache(cdi.WithSpecDirs(elsewhere), cdi.WithAutoRefresh(false))
+		o, reuse := withDirs(dirs)
+		cache.Configure(o)
+		reuse()
+		c.Count("caches_reconfigured_before_the_write", 1)
 	} else {
 		cache, _ = cdi.NewCache(cdi.WithSpecDirs(dirs...), cdi.WithAutoRefresh(false))
 	}
@@ -307,6 +348,10 @@ func c16Case(cs *Case, auto bool) {
 	}
 	// encoding by extension
 	data, _ := os.ReadFile(expected)
+	if len(refBytes) > 0 && !bytes.Equal(data, refBytes) {
+		cs.Violation("write-wrong-content", map[string]string{"auto": fmt.Sprint(auto)}, fmt.Sprintf("after WriteSpec(%q) the file %s (%d bytes) is not what a cache of its own writes for this Spec and name (%d bytes): whatever was there before must be replaced as a whole", wname, expected, len(data), len(refBytes)), wit)
+		return
+	}
 	trim := strings.TrimSpace(string(data))
 	var tmp map[string]any
 	isJSON := strings.HasPrefix(trim, "{")
